@@ -46,6 +46,20 @@ def attempt(f):
         return ("err", type(e).__name__)
 
 
+def all_sizes(v, depth=0):
+    """the recorded _sizes of a parsed value and of every structure / union inside it"""
+    out = []
+    sz = getattr(v, "__dict__", {}).get("_sizes")
+    if isinstance(sz, dict):
+        out.append(sorted((k, n) for k, n in sz.items() if n))
+        vals = getattr(v, "__dict__", {}).get("_values") or {}
+        for k in sorted(vals):
+            out.append((k, all_sizes(vals[k], depth + 1)))
+    elif isinstance(v, list) and depth < 6:
+        out.append([all_sizes(x, depth + 1) for x in v])
+    return out
+
+
 def check(run: Run) -> None:
     rng = random.Random(f"C09-{run.seed}")
     thorough = run.tier == "thorough"
@@ -86,6 +100,9 @@ def check(run: Run) -> None:
             continue
         if ka != kb:
             probs.append({"what": f"parse at p={p} vs parse of data[p:]", "observed": repr(ka)[:300], "expected": repr(kb)[:300]})
+        elif a[0] == "ok" and not c.align and all_sizes(a[1]) != all_sizes(b[1]):
+            # the recorded member sizes are part of what parsing returns (aligned structures aside: their tail padding depends on p by definition)
+            probs.append({"what": f"recorded sizes at p={p} vs at 0", "observed": repr(all_sizes(a[1]))[:300], "expected": repr(all_sizes(b[1]))[:300]})
         if a[0] == "ok":
             used = a[2]
             # bytes before p and after the extent do not matter (to-end arrays aside)
